@@ -145,6 +145,49 @@ func checkMain(args []string) {
 		}
 	}
 
+	// executable contracts: every contract under this property is also run against
+	// the real function (bounded; validates the specifications and the engine, and
+	// finds concrete failing inputs for obligations the solver cannot refute)
+	budget := 5000
+	if *tier == "thorough" {
+		budget = 200000
+	}
+	var execCons []*Contract
+	for _, u := range units {
+		if u.con.kind == "func" {
+			execCons = append(execCons, u.con)
+		}
+	}
+	failedUnit := map[*Unit]bool{}
+	for _, u := range units {
+		for _, o := range u.obligs {
+			if !o.expectFail && o.result != "proved" {
+				failedUnit[u] = true
+			}
+		}
+		if u.err != nil {
+			failedUnit[u] = true
+		}
+	}
+	execRes := eng.runContractTests(execCons, seed, budget, filepath.Join(dir, "exec"))
+	if len(failedUnit) > 0 {
+		// search harder where a proof failed
+		var again []*Contract
+		for u := range failedUnit {
+			if r := execRes[u.con]; r != nil && r.Supported && r.Violation == "" {
+				again = append(again, u.con)
+			}
+		}
+		if len(again) > 0 {
+			more := eng.runContractTests(again, seed+1, budget*20, filepath.Join(dir, "exec2"))
+			for c, r := range more {
+				if r.Violation != "" {
+					r.Seed, r.Budget = seed+1, budget*20
+					execRes[c] = r
+				}
+			}
+		}
+	}
 	known := loadKnown(filepath.Join(*verif, "known_findings.jsonl"))
 	ledgerPath := filepath.Join(*verif, "ledger", *prop+".txt")
 	var names []string
@@ -252,11 +295,45 @@ func checkMain(args []string) {
 				}
 			}
 		}
+		if u != nil {
+			if r := execRes[u.con]; r != nil && r.Violation != "" {
+				// a concrete failing input on the real code
+				suffix = ""
+				rec["failing_input"] = map[string]any{"violated_clause": r.Violation, "clause_text": r.Clause, "inputs": json.RawMessage(r.Inputs),
+					"replay": fmt.Sprintf("bin/govc exec -func %s -seed %d -budget %d", u.name, pick(r.Seed, seed), pickInt(r.Budget, budget)), "go_test_cmd": r.Cmd}
+				rec["go_test"] = r.TestSrc
+			} else if r != nil && r.Supported {
+				rec["falsifier"] = fmt.Sprintf("executed the contract on %d generated inputs (+%d rejected by requires) without finding a failing one", r.Executed, r.Skipped)
+			} else if r != nil {
+				rec["falsifier"] = "contract not executable: " + r.Why
+			}
+		}
 		p := writeReplay(*verif, *prop, name, rec)
 		violLines = append(violLines, fmt.Sprintf("VIOLATION property=%s replay=%s%s", *prop, p, suffix))
 	}
 	for _, f := range failures {
 		report(f.o.name, f.o, f.u, nil)
+	}
+	// contract violated when executed although every obligation was discharged:
+	// the specification or the engine is wrong — never silent
+	execStats := map[string]any{}
+	execTotal := 0
+	for _, u := range units {
+		r := execRes[u.con]
+		if r == nil {
+			continue
+		}
+		st := map[string]any{"clauses": r.Clauses, "executed": r.Executed, "rejected_by_requires": r.Skipped}
+		if !r.Supported {
+			st = map[string]any{"not_executable": r.Why}
+		}
+		execStats[u.name] = st
+		execTotal += r.Executed
+		if r.Violation != "" && !failedUnit[u] {
+			o := &Oblig{name: u.name + "/exec/" + r.Violation, class: "exec", result: "failed", text: r.Clause,
+				output: "the contract clause is violated by the real function on a generated input although its proof obligations were discharged"}
+			report(o.name, o, u, nil)
+		}
 	}
 	for _, n := range ledgerMissing {
 		report(n, nil, nil, map[string]any{"result": "missing", "note": "an obligation recorded in the ledger for the unchanged tree was not generated (contract no longer binds, loop or return site vanished)"})
@@ -308,6 +385,7 @@ func checkMain(args []string) {
 		"ledger_entries":           len(names),
 		"ledger_missing":           ledgerMissing,
 		"known_findings_reported":  knownLines,
+		"bounded_contract_execution": map[string]any{"label": "bounded (not proof): the same requires/ensures text executed on the real functions", "inputs_per_function": budget, "total_executions": execTotal, "per_function": execStats},
 		"callee_contract_modes":    calleeModes,
 		"explanation":              "each obligation is one SMT query generated from /repo's current source (go/ssa) and the //@ contracts in zz_verif_*.go; `discharged` counts unsat answers only",
 	}
@@ -334,6 +412,19 @@ func (u *Unit) scriptFor(o *Oblig) (s string) {
 		return ""
 	}
 	return u.script(o, nil)
+}
+
+func pick(a, b int64) int64 {
+	if a != 0 {
+		return a
+	}
+	return b
+}
+func pickInt(a, b int) int {
+	if a != 0 {
+		return a
+	}
+	return b
 }
 
 func round3(f float64) float64 { return float64(int(f*1000+0.5)) / 1000 }
